@@ -3,6 +3,7 @@
 // Contracts for package msgpipeline (checked by /verif/govc; comment-only file).
 package msgpipeline
 
+//@ import modify "github.com/foxcpp/maddy/internal/modify"
 //@ import authres "github.com/emersion/go-msgauth/authres"
 //@ import godmarc "github.com/emersion/go-msgauth/dmarc"
 
@@ -239,3 +240,95 @@ package msgpipeline
 //@   loop 2 invariant ddOK(dd) && allGroupsChecked(dd) && gRejectN == old(gRejectN) && ((gQuarN > old(gQuarN) || old(dd.checkRunner.mergedRes.Quarantine) || old(dd.msgMeta.Quarantine)) ==> dd.msgMeta.Quarantine)
 //@ func (*msgpipelineDelivery).BodyNonAtomic$1
 //@   prop C06
+
+// ---- C04: block selection ----
+// A table is a function of (table, key) (assumption A-iface: lookups are pure for the duration of a message).
+//@ uninterp func tblOK(t module.Table, key string) bool
+//@ uninterp func tblErr(t module.Table, key string) error
+//@ extern func (module.Table).Lookup(t module.Table, ctx context.Context, s string) (val string, ok bool, err error)
+//@   ensures ok == tblOK(t, s) && err == tblErr(t, s)
+//@ pure func tblHit(t module.Table, key string) bool = tblErr(t, key) == nil && tblOK(t, key)
+// The destination block for a recipient: the block of the FIRST destination_in table (declaration order) that has
+// the lookup key; else the block declared for the full key; else the block declared for the key's domain; else the
+// default block. An address without a lookup key, or a key that does not split, is refused.
+//@ pure func rcptFallback(sb sourceBlock, key string) *rcptBlock = has(sb.perRcpt, key) ? sb.perRcpt[key] : (has(sb.perRcpt, splitDom(key)) ? sb.perRcpt[splitDom(key)] : sb.defaultRcpt)
+//@ func (*msgpipelineDelivery).rcptBlockForAddr
+//@   prop C04
+//@   modifies *
+//@   requires dd != nil
+//@   ensures !keyOK(rcptTo) ==> result1 != nil && result0 == nil
+//@   ensures keyOK(rcptTo) ==> (forall i int :: 0 <= i && i < len(old(dd.sourceBlock.rcptIn)) && tblHit(old(dd.sourceBlock.rcptIn)[i].t, lookupKey(rcptTo)) && (forall j int :: 0 <= j && j < i ==> !tblHit(old(dd.sourceBlock.rcptIn)[j].t, lookupKey(rcptTo))) ==> result1 == nil && result0 == old(dd.sourceBlock.rcptIn)[i].block)
+//@   ensures keyOK(rcptTo) && (forall j int :: 0 <= j && j < len(old(dd.sourceBlock.rcptIn)) ==> !tblHit(old(dd.sourceBlock.rcptIn)[j].t, lookupKey(rcptTo))) && (has(old(dd.sourceBlock.perRcpt), lookupKey(rcptTo)) || splitOK(lookupKey(rcptTo))) ==> result1 == nil && result0 == old(rcptFallback(dd.sourceBlock, lookupKey(rcptTo)))
+//@   ensures keyOK(rcptTo) && (forall j int :: 0 <= j && j < len(old(dd.sourceBlock.rcptIn)) ==> !tblHit(old(dd.sourceBlock.rcptIn)[j].t, lookupKey(rcptTo))) && !has(old(dd.sourceBlock.perRcpt), lookupKey(rcptTo)) && !splitOK(lookupKey(rcptTo)) ==> result1 != nil && result0 == nil
+//@   trusted-ensures gSelBlock == result0 && gSelAddr == rcptTo
+//@   loop 0 invariant forall j int :: 0 <= j && j <= rangeindex ==> !tblHit(old(dd.sourceBlock.rcptIn)[j].t, cleanRcpt)
+//@   loop 0 invariant dd.sourceBlock == old(dd.sourceBlock)
+// The source block for a sender: same precedence over source_in tables, full key, domain, default. The null sender
+// has the empty key; it can only match a table or the default block (or a rule declared for the empty key).
+//@ pure func domOrEmpty(key string) string = splitOK(key) ? splitDom(key) : ""
+//@ pure func srcFallback(cfg msgpipelineCfg, key string) sourceBlock = has(cfg.perSource, key) ? cfg.perSource[key] : (has(cfg.perSource, domOrEmpty(key)) ? cfg.perSource[domOrEmpty(key)] : cfg.defaultSource)
+//@ func (*msgpipelineDelivery).srcBlockForAddr
+//@   prop C04
+//@   modifies *
+//@   requires dd != nil && dd.d != nil
+//@   ensures !keyOK(mailFrom) ==> result1 != nil
+//@   ensures keyOK(mailFrom) ==> (forall i int :: 0 <= i && i < len(old(dd.d.sourceIn)) && tblHit(old(dd.d.sourceIn)[i].t, lookupKey(mailFrom)) && (forall j int :: 0 <= j && j < i ==> !tblHit(old(dd.d.sourceIn)[j].t, lookupKey(mailFrom))) ==> result1 == nil && result0 == old(dd.d.sourceIn)[i].block)
+//@   ensures keyOK(mailFrom) && (forall j int :: 0 <= j && j < len(old(dd.d.sourceIn)) ==> !tblHit(old(dd.d.sourceIn)[j].t, lookupKey(mailFrom))) && (has(old(dd.d.perSource), lookupKey(mailFrom)) || splitOK(lookupKey(mailFrom)) || lookupKey(mailFrom) == "") ==> result1 == nil && result0 == old(srcFallback(dd.d.msgpipelineCfg, lookupKey(mailFrom)))
+//@   ensures keyOK(mailFrom) && (forall j int :: 0 <= j && j < len(old(dd.d.sourceIn)) ==> !tblHit(old(dd.d.sourceIn)[j].t, lookupKey(mailFrom))) && !has(old(dd.d.perSource), lookupKey(mailFrom)) && !splitOK(lookupKey(mailFrom)) && lookupKey(mailFrom) != "" ==> result1 != nil
+//@   loop 0 invariant forall j int :: 0 <= j && j <= rangeindex ==> !tblHit(old(dd.d.sourceIn)[j].t, cleanFrom)
+//@   loop 0 invariant dd.d == old(dd.d) && dd.d.msgpipelineCfg == old(dd.d.msgpipelineCfg)
+
+// ---- C04: configuration ----
+// Every destination block carries an explicit decision: a reject error or at least one target.
+// (Not demanded, because the statement does not: 'reject' followed by 'reroute' in one block is accepted although
+// 'reject' with 'deliver_to' is refused; at run time the reject wins, which is the statement's "refused with that
+// block's configured reply".)
+//@ func parseMsgPipelineRcptCfg
+//@   prop C04
+//@   modifies *
+//@   ensures result1 == nil ==> result0 != nil && (result0.rejectErr != nil || len(result0.targets) > 0)
+// First declaration wins: a rule is stored only when its key is not present yet; every source block has a default
+// destination block on success.
+//@ func parseMsgPipelineSrcCfg
+//@   prop C04
+//@   modifies *
+//@   assert-update perRcpt : !has($map, $key) && $value != nil
+//@   ensures result1 == nil ==> result0.defaultRcpt != nil
+//@ func parseMsgPipelineRootCfg
+//@   prop C04
+//@   modifies *
+//@   assert-update perSource : !has($map, $key)
+
+// ---- C04: routing of a recipient ----
+// A modifier group only builds per-message state objects (assumed: no effect on pipeline state).
+//@ extern func (modify.Group).ModStateForMsg(g modify.Group, ctx context.Context, msgMeta *module.MsgMetadata) (st module.ModifierState, err error)
+//@   ensures err == nil ==> st != nil
+// gSelBlock / gSelAddr name the outcome and the argument of the most recent rcptBlockForAddr call (ghost definitions).
+//@ ghost var gSelBlock *rcptBlock
+//@ ghost var gSelAddr string
+//@ func (*msgpipelineDelivery).getRcptModifiers
+//@   prop C04
+//@   requires dd != nil && dd.rcptModifiersState != nil && rcptBlock != nil
+//@   modifies mapOf(dd.rcptModifiersState)
+//@   ensures result1 == nil ==> result0 != nil || old(has(dd.rcptModifiersState, rcptBlock))
+//@ func (*msgpipelineDelivery).getDelivery
+//@   prop C04 C03
+//@   requires dd != nil && dd.deliveries != nil
+//@   modifies mapOf(dd.deliveries)
+//@   ensures result1 == nil ==> has(dd.deliveries, tgt) && result0 == dd.deliveries[tgt]
+//@   ensures result1 == nil && !old(has(dd.deliveries, tgt)) ==> result0 != nil && fresh(result0) && len(result0.recipients) == 0
+//@   ensures forall t module.DeliveryTarget :: old(has(dd.deliveries, t)) ==> has(dd.deliveries, t) && dd.deliveries[t] == old(dd.deliveries[t])
+//@   ensures result1 != nil ==> domOf(dd.deliveries) == old(domOf(dd.deliveries))
+// AddRcpt: the destination block is looked up for the effective recipient (after the global and per-source
+// rewriting); a rejecting block refuses the recipient; deliveries are opened and AddRcpt is called only on targets of
+// the block the precedence function selected for that effective recipient, under the address produced by the block's
+// own modifiers; the client-supplied address is what is recorded for status reporting and in OriginalRcpts.
+//@ func (*msgpipelineDelivery).AddRcpt
+//@   prop C04
+//@   modifies *
+//@   requires ddOK(dd) && dd.rcptModifiersState != nil && dd.deliveries != nil && dd.msgMeta.OriginalRcpts != nil
+//@   assert-call (*msgpipelineDelivery).rcptBlockForAddr : $rcptTo == to
+//@   assert-call (*msgpipelineDelivery).getRcptModifiers : $rcptBlock == gSelBlock && gSelBlock.rejectErr == nil
+//@   assert-call (*msgpipelineDelivery).getDelivery : rcptBlock == gSelBlock && rcptBlock.rejectErr == nil && 0 <= rangeindex + 1 && rangeindex + 1 < len(rcptBlock.targets) && $tgt == rcptBlock.targets[rangeindex + 1]
+//@   assert-call (module.Delivery).AddRcpt : $rcptTo == to && $d == delivery.Delivery
+//@   assert-update OriginalRcpts : $key == to && $value == originalTo && $key != $value
